@@ -185,12 +185,15 @@ class Ctx:
         items = list(items)
         if not items:
             return []
+        _t0 = time.time()
         if serial or nworkers() == 1 or len(items) == 1:
             raw = [_guarded((func, it)) for it in items]
         else:
             if chunksize is None:
                 chunksize = max(1, min(64, len(items) // (nworkers() * 8) or 1))
             raw = pool().map(_guarded, [(func, it) for it in items], chunksize)
+        if os.environ.get("VERIF_DEBUG_TIMING"):
+            sys.stderr.write(f"[pmap {getattr(func, '__name__', func)}] {len(items)} items mapped in {time.time() - _t0:.1f}s\n")
         out = []
         for r in raw:
             if r[0] == "ok":
